@@ -4,3 +4,6 @@ import Peppi.Props.C15
 #print axioms Peppi.Props.C15.C15_first_nodup
 #print axioms Peppi.Props.C15.C15_first_keeps_first
 #print axioms Peppi.Props.C15.C15_last_keeps_last
+#print axioms Peppi.Props.C15.C15_first_unique
+#print axioms Peppi.Props.C15.C15_last_unique
+#print axioms Peppi.Props.C15.C15_last_nodup
